@@ -123,8 +123,10 @@ def slices_to_raw_chunks(slice_filename_lists, dest_url, input_orientation,
         else:
             first_slice = first_slice_in_order
             last_slice = last_slice_in_order
+        # When stepping backwards down to the first slice, last_slice is -1,
+        # which must not be interpreted as an index relative to the end
         slice_slicing = np.s_[first_slice
-                              : last_slice
+                              : (last_slice if last_slice >= 0 else None)
                               : input_axis_inversions[2]]
         tqdm.write("Reading slices {} to {} ({}B memory needed)... "
                    .format(first_slice, last_slice - input_axis_inversions[2],
